@@ -1,12 +1,15 @@
 /- line-protocol handlers of the "print" family (C12): printers, Python-grammar parser, eval over LOCALS
 
-   tokens : natural number = variable name | P PP Sum Q One Zero | lp rp lb rb cm pl mi ti at st sl ba am
+   tokens : natural number = variable name | P PP Sum Q One Zero TARGET_DOMAIN | lp rp lb rb cm pl mi ti at st sl ba am
    ast    : (n 5) | (k P) | (call f a…) | (sub f i) | (tup x…) | (un pos|neg|inv a) | (bin bor|band|add|sub|mul|div|matmul l r)
-   ops    : (print rt pinned|total <ast | none> <expr>)  ->  (ok <built> <tokens> <ast> <reparsed>)
+   ops    : (print rt pinned|total <ast | none> <expr>)  ->  (ok <built> <tokens> <ast> <reparsed> <domain> <simple> <namesOnce>)
               built    = (ok expr) | (err …) | none     model of evaluating the construction AST with the DSL operators
               tokens   = (t …)                          Print.expr of the GIVEN expr
               ast      = (ok ast) | (err …)             PyParse.parse of those tokens
               reparsed = (ok expr) | (err …)            PyEval.parseY0 of those tokens
+              domain   = true | false                   wf e && built e (hypotheses of the theorems, on the GIVEN expr)
+              simple   = true | false                   simple e
+              namesOnce= true | false | none            PyEval.namesOnce of the construction AST (hypothesis of built_of_eval)
             (print parse (t …))  ->  (ok ast) | (err syntax)
             (print eval pinned|total <ast>)   ->  (ok expr) | (err …)
 -/
@@ -19,10 +22,11 @@ open Y0 Sexp
 namespace PrintCodec
 
 def kwToStr : Kw → String
-  | .P => "P" | .PP => "PP" | .Sum => "Sum" | .Q => "Q" | .One => "One" | .Zero => "Zero"
+  | .P => "P" | .PP => "PP" | .Sum => "Sum" | .Q => "Q" | .One => "One" | .Zero => "Zero" | .TargetDomain => "TARGET_DOMAIN"
 
 def kwOf? : String → Option Kw
   | "P" => some .P | "PP" => some .PP | "Sum" => some .Sum | "Q" => some .Q | "One" => some .One | "Zero" => some .Zero
+  | "TARGET_DOMAIN" => some .TargetDomain
   | _ => none
 
 def tokToSexp : Tok → Sexp
@@ -96,18 +100,18 @@ def handlePrint (op : String) (args : List Sexp) : Option Sexp := do
   | "rt", [order, build, e] =>
     let lt ← orderOf? order
     let e ← Codec.exprOf? e
-    let built : Sexp ← (match build with
-      | atom "none" => some (atom "none")
+    let (built, once) : Sexp × Sexp ← (match build with
+      | atom "none" => some (atom "none", atom "none")
       | b => do
         let a ← astOf? b
-        pure (errOrOk Codec.exprToSexp (PyEval.evalExpr lt a)))
+        pure (errOrOk Codec.exprToSexp (PyEval.evalExpr lt a), atom (toString (PyEval.namesOnce a))))
     let toks := Print.expr e
     let ast : Sexp := match PyParse.parse toks with
       | .ok a => tagged "ok" [astToSexp a]
       | .error m => tagged "err" [atom "syntax", atom (clean m)]
     let re := errOrOk Codec.exprToSexp (PyEval.parseY0 lt toks)
     pure (tagged "ok" [built, list (atom "t" :: toks.map tokToSexp), ast, re,
-      atom (toString (Print.wf e && PyEval.built lt e)), atom (toString (PyEval.simple e))])
+      atom (toString (Print.wf e && PyEval.built lt e)), atom (toString (PyEval.simple e)), once])
   | "parse", [list (atom "t" :: ts)] =>
     let toks ← ts.mapM tokOf?
     pure (match PyParse.parse toks with
